@@ -130,6 +130,9 @@ def run(prog: Program, rep: Report, tier: str) -> None:
     gwhere = f"{loc(gfi, gfi.node)} {gfi.qualname}"
     want = LS.term_of(prog, spec["model"], MSG)
     vals = [o.value for o in outs if o.kind == "return"]
+    jv_ = joined_value(outs)          # (a first-match loop over the members returns one member per path: the table it spells)
+    if jv_ is not None:
+        vals.append(jv_)
     def has_lookup(v: Any) -> bool:
         if v == want:
             return True
